@@ -146,6 +146,12 @@ CONTRACTS = [
                   'valid': 'all(k in self.parameters and Valid(self.parameters[k].datatype, v) for k, v in result.items())',
                   'remembers_dict': 'is_dict(self.persistentData)'},
          raises='never'),
+    # load after save (bounded stand-in only): what a module saved is what a new module instance restores, for every datatype
+    dict(key='PersistentMixin.loadPersistentData[roundtrip]', vc=False, file='frappy/persistent.py', func='PersistentMixin.loadPersistentData',
+         serves=['C17'], self_type='PersistentMixin', requires=[],
+         ensures={'restored_equal': 'all(p in result and result[p] == v and type(result[p]) is type(v) for p, v in saved_values.items())',
+                  'nothing_else': 'set(result) <= set(saved_values)'},
+         raises='never'),
 ]
 LOOPS = {}
 UFS = {'DIV': (['val', 'val'], 'val', 'Path')}
